@@ -441,7 +441,8 @@ func (rs *runState) lease(step int, op core.Op) {
 	if d > 86400 {
 		d = 86400
 	}
-	if _, err := x.w.LeaseOutput(id, o, time.Duration(d)*time.Second); err == nil {
+	if exp, err := x.w.LeaseOutput(id, o, time.Duration(d)*time.Second); err == nil {
+		x.leases[o] = exp
 		x.env.Count("op.LeaseOutput")
 		x.env.Eff()
 	}
